@@ -26,7 +26,8 @@ pub struct MasterScript {
     pub seq_base: u16,
     /// stepsRemoved announced
     pub steps: u16,
-    /// 0 normal, 1 duplicate every frame, 2 swap adjacent pairs (re-ordering), 3 stale sequence ids
+    /// 0 normal, 1 duplicate every frame, 2 swap adjacent pairs (re-ordering), 3 stale sequence ids,
+    /// 4 bursts of 3..8 Announces per announcement
     pub mode: u8,
     /// announces bear the instance's own clock identity
     pub own_identity: bool,
@@ -127,6 +128,21 @@ pub fn run_case(rep: &mut Report, case: &Case, verbose: bool) -> bool {
                     frames[i + 1].1 = a;
                     i += 2;
                 }
+            }
+            4 => {
+                // bursts: every announcement consists of 3..8 Announces (consecutive sequence ids)
+                // within a few ticks, as from a master announcing several times per interval of
+                // this port
+                let k = 3 + (m.seq_base % 6) as u64;
+                let mut out = vec![];
+                let mut seq = m.seq_base;
+                for (t, _) in frames.iter() {
+                    for j in 0..k {
+                        out.push((*t + j.min(TICKS_PER_I - 1 - (*t % TICKS_PER_I)), seq));
+                        seq = seq.wrapping_add(1);
+                    }
+                }
+                frames = out;
             }
             3 => {
                 // every third frame carries a stale sequence id
@@ -363,7 +379,7 @@ fn single(pattern: u32, phase: u64, offset: u64, seq_base: u16, seed: u64) -> Ca
 
 pub fn run(rep: &mut Report, tier: &str, seed: u64, shard: (u32, u32), replay: Option<&str>) {
     rep.rule = "one real port, 1-3 (and 8/9) scripted masters announcing according to presence patterns over 16 announce intervals (I = 64 ticks), per-master arrival offsets, four BMCA phases, sequence ids straddling 65535->0, duplicated / re-ordered / stale sequence ids, stepsRemoved 254/255/256, own-identity senders, clockClass 248 and 6 (passive) instances; receipts and per-BMCA snapshots are checked offline; single-master patterns are enumerated (all 2^16 in thorough); distinct = distinct cases; non-trivial = the port was Slave or Passive after at least one BMCA".into();
-    rep.require(&["announce_receipt", "bmca_snapshot", "slave_after_bmca", "passive_after_bmca", "l1_checked", "l2_checked", "port_made_faulty", "port_recovered_from_faulty", "two_ports_of_one_foreign_clock"]);
+    rep.require(&["announce_receipt", "bmca_snapshot", "slave_after_bmca", "passive_after_bmca", "l1_checked", "l2_checked", "port_made_faulty", "port_recovered_from_faulty", "two_ports_of_one_foreign_clock", "burst_then_silence"]);
     if let Some(path) = replay {
         let v: serde_json::Value = serde_json::from_str(&std::fs::read_to_string(path).unwrap()).unwrap();
         if let Ok(c) = serde_json::from_value::<Case>(v["case"].clone()) {
@@ -422,6 +438,19 @@ pub fn run(rep: &mut Report, tier: &str, seed: u64, shard: (u32, u32), replay: O
             }
         }
     }
+    // a burst, then silence
+    if shard.0 == 0 {
+        for k in 0..10u32 {
+            for sb in 0..6u16 {
+                for (pi, &ph) in phases.iter().enumerate() {
+                    let mut case = single((1 << k) | if pi % 2 == 0 { 0 } else { 1 << (k + 1) }, ph, [16u64, 40][pi % 2], 65528 + sb, seed.wrapping_add(500 + k as u64));
+                    case.masters[0].mode = 4;
+                    count(rep, &case);
+                    rep.ev("burst_then_silence");
+                }
+            }
+        }
+    }
     // two ports of one foreign clock, one Announce each: neither qualifies
     if shard.0 == 0 {
         for k in 0..12u32 {
@@ -470,7 +499,7 @@ pub fn run(rep: &mut Report, tier: &str, seed: u64, shard: (u32, u32), replay: O
                 offset: rng.gen_range(1..63),
                 seq_base: [0u16, 65530, 65535, 32760, rng.gen()][rng.gen_range(0..5)],
                 steps: [0u16, 0, 0, 1, 254, 255, 256][rng.gen_range(0..7)],
-                mode: [0u8, 0, 0, 1, 2, 3][rng.gen_range(0..6)],
+                mode: [0u8, 0, 0, 1, 2, 3, 4][rng.gen_range(0..7)],
                 own_identity: rng.gen_bool(0.05),
                 lower_port: false,
                 port: 1,
